@@ -26,9 +26,42 @@ type Mode struct {
 }
 
 // jobErr is the unique error value of a failing job.
-type jobErr struct{ j int }
+//
+// A job's error may wrap context.DeadlineExceeded / context.Canceled (as a
+// task-local timeout would) although no context of the case is done, and
+// several jobs may return one shared instance.
+type jobErr struct {
+	j    int
+	wrap error
+}
 
-func (e *jobErr) Error() string { return fmt.Sprintf("job %d failed", e.j) }
+func (e *jobErr) Error() string {
+	if e.wrap != nil {
+		return fmt.Sprintf("job %d failed: %v", e.j, e.wrap)
+	}
+	return fmt.Sprintf("job %d failed", e.j)
+}
+
+func (e *jobErr) Unwrap() error { return e.wrap }
+
+// newJobErrs builds the error instance of every job.
+func newJobErrs(jobs []Job) []*jobErr {
+	errs := make([]*jobErr, len(jobs))
+	for j, jb := range jobs {
+		if k := jb.EShare - 1; k >= 0 && k < j {
+			errs[j] = errs[k]
+			continue
+		}
+		errs[j] = &jobErr{j: j}
+		switch jb.EWrap {
+		case 1:
+			errs[j].wrap = context.DeadlineExceeded
+		case 2:
+			errs[j].wrap = context.Canceled
+		}
+	}
+	return errs
+}
 
 // Report is one scheduler state report plus harness-side facts read inside
 // the Emit callback.
@@ -134,10 +167,7 @@ func Run(c *Case, m Mode) *Hist {
 		CtxBad:    make([]atomic.Int32, J),
 		EnqSeq:    make([]int64, J),
 		EnqRetSeq: make([]int64, J),
-		Errs:      make([]*jobErr, J),
-	}
-	for j := range h.Errs {
-		h.Errs[j] = &jobErr{j}
+		Errs:      newJobErrs(jobs),
 	}
 	seq := &seqCounter
 	h.loopBudget.Store(int64(3*J + 1064))
